@@ -72,28 +72,31 @@ class BitsFieldReader:
         self.kwargs[field] = self.get(size, field)
 
     def read_bytes(self, length, field):
-        if self.log:
-            self.log.debug(
-                '%s: read_bytes %s size=%d pos=%s', self.name, field, length,
-                self.src.pos)
-        data = self.src.read(f'bytes:{length}')
-        self.kwargs[field] = data
+        self.kwargs[field] = self.get_bytes(length, field)
 
     def get(self, size, field):
         if self.log:
             self.log.debug(
                 '%s: read %s size=%d pos=%s', self.name, field, size,
                 self.src.bitpos)
-        if size == 1:
-            return self.src.read('bool')
-        return self.src.read('uint:%d' % size)
+        try:
+            if size == 1:
+                return self.src.read('bool')
+            return self.src.read('uint:%d' % size)
+        except bitstring.ReadError as err:
+            raise ValueError(
+                f'{self.name}: truncated input reading {field}: {err}') from err
 
     def get_bytes(self, length, field):
         if self.log:
             self.log.debug(
                 '%s: read_bytes %s size=%d pos=%s', self.name, field, length,
                 self.src.pos)
-        data = self.src.read(f'bytes:{length}')
+        try:
+            data = self.src.read(f'bytes:{length}')
+        except bitstring.ReadError as err:
+            raise ValueError(
+                f'{self.name}: truncated input reading {field}: {err}') from err
         return data
 
     def bitpos(self):
